@@ -102,7 +102,8 @@ def sampleU (G : UG) : Nat → UDraws → NT → List NT → Option (Tree Sym ×
                 | none => none
                 | some (kids, d3) => some (Tree.node P kids, d3)
 
-/-- `sample_program()` : `S = self._int2start[self._start_sampler.sample()]` first -/
+/-- `sample_program()` : `S = self._int2start[self._start_sampler.sample()]` first;
+    `starts` = `list(self.start_tags.keys())`, the order of the weights given to the start sampler -/
 def sampleProgramU (G : UG) (starts : List NT) (fuel : Nat) (d : UDraws) : Option (Tree Sym × UDraws) :=
   match d.starts with
   | [] => none
